@@ -144,6 +144,48 @@ PROPS.update({
 })
 
 
+def cen_nontrivial(req, I):
+    return bool(re.search(r'>(?!0\.0( |$))[0-9.e-]+', I.get('bc0:q', ''))) or bool(re.search(r'>(?!0\.0( |$))[0-9.e-]+', I.get('cc0:q', '')))
+
+
+def cen_hist(req, I):
+    t = req.split()
+    return graph_hist(req, I) + [f'weighted{t[-2]}']
+
+
+CEN_RULE = ('random graphs of all 8 kinds, 1..size nodes (plus a few with 21-36 nodes that take the parallel path), positive integer '
+            'weights 1..4 when weighted, several density shapes incl. disconnected graphs, parallel edges, self-loops; raw+normalized / '
+            'plain+Wasserman-Faust; the definition-level specification (path enumeration) is evaluated for graphs of at most 8 nodes; '
+            'non-trivial = some node has a non-zero value')
+
+PROPS.update({
+    'C05': dict(
+        gens=[('cen', 'small', 1500, 25000, 8), ('cen', 'parallel', 20, 200, 36)],
+        spec_fields=[r'bc0:q', r'bc1:q'], model_fields=[r'build', r'bc0:q', r'bc1:q'],
+        nontrivial=cen_nontrivial, hist=cen_hist, rule=CEN_RULE,
+        assumptions=COMMON_ASSUME + ['f64 rounding of the accumulation is not modelled: values are compared with relative tolerance 1e-9'],
+    ),
+    'C06': dict(
+        gens=[('cen', 'small', 1500, 25000, 8), ('cen', 'parallel', 20, 200, 36)],
+        spec_fields=[r'cc0:q', r'cc1:q'], model_fields=[r'build', r'cc0:q', r'cc1:q'],
+        nontrivial=cen_nontrivial, hist=cen_hist, rule=CEN_RULE,
+        assumptions=COMMON_ASSUME + ['f64 rounding of the quotient is not modelled: values are compared with relative tolerance 1e-9'],
+    ),
+    'C18': dict(
+        gens=[('eig', 'small', 1500, 25000, 7)],
+        spec_fields=[r'ok\.eig'], model_fields=[r'build', r'agree\.eig'],
+        nontrivial=lambda req, I: I.get('eig:b', '').count('>') >= 2,
+        hist=lambda req, I: graph_hist(req, I) + ['result.' + ('ok' if '>' in I.get('eig:b', '') or I.get('eig:b') == '.' else I.get('eig:b', '?')),
+                                                   'maxiter.' + req.split()[-2], 'tol.1e-' + req.split()[-1]],
+        rule='random single-edge (10% multi-edge) graphs of 1..7 nodes, non-negative integer weights 0..4 / unweighted / mixed, '
+             'max_iter in {1,2,3,5,10,30,100,300}, tolerance 1e-2..1e-12; non-trivial = result has at least two entries',
+        assumptions=COMMON_ASSUME[:2] + ['the model is executed over Lean Float (IEEE doubles, same operations, different summation order): '
+                                         'values are compared within 1e-7 and not at all when the stopping test is within rounding of its threshold',
+                                         'the checker evaluates the C18 clauses in Float with slack 1e-9'],
+    ),
+})
+
+
 def run_translator(ctx, name):
     import extract
     return extract.run(ctx, name)
